@@ -11,7 +11,7 @@ TRUSTED_BASE = [
     "hand-written Gallina model coq/theories/{Base,Text,Hex,HexMore,Label,Sodg,Esort,Print,Export,Slice,Merge,Serial,Script}.v and reference model Spec.v/SpecDec.v, tied to /repo by the correspondence check (differential testing on generated histories, corpus and exhaustive tiny-domain tours; not proof)",
     "extraction: ExtrOcamlBasic only (bool, option, unit, list, prod, sumbool, sumor -> OCaml built-ins; andb/orb inlined); nat/positive/N/Z stay inductive; OCaml 4.13.1 ocamlopt; cross-checked against vm_compute on 120 histories at every model build (tools/xcheck.py)",
     "unverified glue: model/conv.ml, model/modeldrv.ml (op parsing, tabulation of the reference state, bfs tour), harness/src/main.rs, lib/*.py (generators, tracker, snapshot parsing, abs_state, oracles, shrinking, audit)",
-    "modelled, not verified: emap/micromap/microstack semantics (incl. emap's private high-water mark), bincode 1.3.3, serde derive layout, regex, str::trim/split/from_str, hex::decode, xml-builder (no attribute escaping modelled), itertools::sorted, slice indexing, String::from_utf8, HashMap/HashSet as sets; Sodg::join() and graphs with vacant slots: coq/theories/XJoin.v (conservative extension, XJoinFacts.v), run by the driver for every graph handle",
+    "modelled, not verified: emap/micromap/microstack semantics (incl. emap's private high-water mark), bincode 1.3.3, serde derive layout, regex, str::trim/split/from_str, hex::decode, xml-builder (no attribute escaping modelled), itertools::sorted, slice indexing, String::from_utf8, HashMap/HashSet as sets; Sodg::join() and graphs with vacant slots: coq/theories/XJoin.v (conservative extension), run by the driver for every graph handle; P_Bridge.v (audited at every check) pins that on states without vacant slots every extended operation is the proved one",
     "rustc/cargo stable, dev profile (debug assertions and overflow checks on); verif_snapshot() hook (cargo feature verif) as the window on the internal state",
 ]
 
@@ -436,6 +436,14 @@ class C15(Prop):
         for a in shapes[::3]:
             for b in shapes[::5]:
                 ops.append("HEXEQ %s %s" % (a, b))
+        # every pair of shapes of one byte string (heap / inline / inline with other padding), both ways round
+        same = {}
+        for sh in shapes:
+            same.setdefault(hx_bytes(sh), []).append(sh)
+        for grp in same.values():
+            for a in grp:
+                for b in grp:
+                    ops.append("HEXEQ %s %s" % (a, b))
         for z in [0, 1, -1, 42, 2 ** 63 - 1, -2 ** 63, 256, -256, 2 ** 32, -2 ** 32 - 1] + \
                  [rng.next() - 2 ** 63 for _ in range(200 if tier == "quick" else 20000)]:
             ops.append("HEXFROMI64 %d" % z)
@@ -523,7 +531,7 @@ class C15(Prop):
             pr = "-".join("%02X" % b for b in bs) if bs else "--"
             i64 = str(int.from_bytes(bs, "big", signed=True)) if len(bs) == 8 else "err"
             f64 = bs.hex() if len(bs) == 8 else "err"
-            return "len=%d bytes=%s print=%s empty=%d vec=%s i64=%s f64=%s rt=%s" % (
+            return "len=%d bytes=%s print=%s empty=%d vec=%s i64=%s f64=%s rt=%s rteq=11" % (
                 len(bs), bs.hex(), text_hex(pr), 1 if not bs else 0, bs.hex(), i64, f64, hx_from_vec(bs))
         if k in ("HEXIDX", "HEXBYTEAT"):
             i = arg(t[2])
